@@ -233,6 +233,9 @@ func (db *SingleBucketBackend) HeadObject(bucketName, objectName string) (*gofak
 	if bucketName != db.name {
 		return nil, gofakes3.BucketNotFound(bucketName)
 	}
+	if err := checkObjectName(objectName); err != nil {
+		return nil, err
+	}
 
 	db.lock.Lock()
 	defer db.lock.Unlock()
@@ -264,6 +267,9 @@ func (db *SingleBucketBackend) HeadObject(bucketName, objectName string) (*gofak
 func (db *SingleBucketBackend) GetObject(bucketName, objectName string, rangeRequest *gofakes3.ObjectRangeRequest) (obj *gofakes3.Object, err error) {
 	if bucketName != db.name {
 		return nil, gofakes3.BucketNotFound(bucketName)
+	}
+	if err := checkObjectName(objectName); err != nil {
+		return nil, err
 	}
 
 	db.lock.Lock()
@@ -327,6 +333,9 @@ func (db *SingleBucketBackend) PutObject(
 
 	if bucketName != db.name {
 		return result, gofakes3.BucketNotFound(bucketName)
+	}
+	if err := checkObjectName(objectName); err != nil {
+		return result, err
 	}
 
 	err = gofakes3.MergeMetadata(db, bucketName, objectName, meta)
@@ -435,6 +444,10 @@ func (db *SingleBucketBackend) DeleteObject(bucketName, objectName string) (resu
 }
 
 func (db *SingleBucketBackend) deleteObjectLocked(bucketName, objectName string) error {
+	if err := checkObjectName(objectName); err != nil {
+		return err
+	}
+
 	// S3 does not report an error when attemping to delete a key that does not exist, so
 	// we need to skip IsNotExist errors.
 	if err := db.fs.Remove(filepath.FromSlash(objectName)); err != nil && !os.IsNotExist(err) {
